@@ -12,6 +12,7 @@ from contracts.C04_polars_column_validate import PolarsColumnValidate
 from contracts.C05_multiindex_validate import MultiIndexValidate
 from contracts.C05_polars_components import PolarsRunSchemaComponentChecks
 from contracts.C03_polars_parsers import PolarsAddMissingColumns, PolarsSetDefault
+from contracts.C02_polars_column_collect import PolarsColumnCollect
 
 CONTRACTS = [ContainerValidate, SeriesSchemaValidate, ArrayValidate, IndexValidate, ColumnValidateRestoresSchema, RunSchemaComponentChecks,
-             ConfigContext, PolarsSubsample, PandasDropInvalidRows, PolarsDropInvalidRows, PolarsContainerValidate, PolarsColumnValidate, MultiIndexValidate, PolarsRunSchemaComponentChecks, PolarsAddMissingColumns, PolarsSetDefault] + list(POLARS_API)
+             ConfigContext, PolarsSubsample, PandasDropInvalidRows, PolarsDropInvalidRows, PolarsContainerValidate, PolarsColumnValidate, MultiIndexValidate, PolarsRunSchemaComponentChecks, PolarsAddMissingColumns, PolarsSetDefault, PolarsColumnCollect] + list(POLARS_API)
